@@ -5,8 +5,10 @@ package bigbuff
 import (
 	"fmt"
 	"math/rand"
+	"runtime"
 	"sort"
 	"sync"
+	"sync/atomic"
 	"time"
 )
 
@@ -1120,4 +1122,98 @@ func exSweepVariants() []timedCase {
 			env.issue(exCallAsync, 0, exModeValue, false, false, 0, 0)
 		}),
 	}
+}
+
+// ---------------------------------------------------------------------------------------------------------------
+// C10ASYNC: the work function hands `resolve` to another goroutine and returns at (nearly) the same instant, so the
+// asynchronous resolve races the forced errResolveNotCalled applied when the work function returns.  Exactly one of the
+// two must take effect for the execution: every coalesced caller gets exactly one outcome, all of them the same one,
+// either the resolved (value, nil) or (nil, errResolveNotCalled).  (A panic in the library - send on / close of a closed
+// channel - ends the scenario abnormally, which is reported as such.)
+// ---------------------------------------------------------------------------------------------------------------
+func init() {
+	register("C10ASYNC", func(h *hctx) {
+		var e Exclusive
+		type got struct {
+			n     int
+			res   interface{}
+			err   error
+			extra bool
+		}
+		read := func(ch <-chan *ExclusiveOutcome) got {
+			var g got
+			select {
+			case o, ok := <-ch:
+				if ok && o != nil {
+					g.n, g.res, g.err = 1, o.Result, o.Error
+				}
+			case <-time.After(3 * time.Second):
+				return g
+			}
+			select {
+			case o, ok := <-ch:
+				if ok && o != nil {
+					g.extra = true
+				}
+			case <-time.After(200 * time.Microsecond):
+			}
+			return g
+		}
+		asyncWon, forcedWon := 0, 0
+		var sink atomic.Int64
+		if runtime.GOMAXPROCS(0) < 2 {
+			defer runtime.GOMAXPROCS(runtime.GOMAXPROCS(2))
+		}
+		for i := 0; i < h.n; i++ {
+			key, val := i, 1000+i
+			spin := h.rng.Intn(256)
+			var execs atomic.Int32
+			work := func(resolve func(interface{}, error)) {
+				execs.Add(1)
+				var spinning, flag atomic.Int32
+				go func() {
+					spinning.Store(1)
+					for flag.Load() == 0 { // busy-wait on another thread: released a few nanoseconds before the return
+					}
+					resolve(val, nil)
+				}()
+				for spinning.Load() == 0 {
+					runtime.Gosched()
+				}
+				flag.Store(1)
+				for k := 0; k < spin; k++ { // sweep where the return lands relative to the asynchronous resolve
+					sink.Add(1)
+				}
+			}
+			chA := e.CallWithOptions(ExclusiveKey(key), ExclusiveWork(work), ExclusiveWait(150*time.Microsecond))
+			chB := e.CallWithOptions(ExclusiveKey(key), ExclusiveWork(work), ExclusiveWait(150*time.Microsecond))
+			a, b := read(chA), read(chB)
+			for j, g := range []got{a, b} {
+				if g.n != 1 {
+					h.line("MONITOR C10 async-resolve: caller %d of batch %d was not answered within 3 s", j, i)
+					return
+				}
+				if g.extra {
+					h.line("MONITOR C10 async-resolve: caller %d of batch %d received a second outcome", j, i)
+				}
+				okAsync := g.err == nil && g.res == val
+				okForced := g.res == nil && g.err == errResolveNotCalled
+				if !okAsync && !okForced {
+					h.line("MONITOR C10 async-resolve: caller %d of batch %d got (%v, %v), neither the resolved value nor resolve-not-called", j, i, g.res, g.err)
+				}
+			}
+			if execs.Load() == 1 && (a.res != b.res || a.err != b.err) {
+				h.line("MONITOR C10 async-resolve: the two coalesced callers of batch %d got different outcomes: (%v, %v) and (%v, %v)", i, a.res, a.err, b.res, b.err)
+			}
+			if a.err == nil {
+				asyncWon++
+			} else {
+				forcedWon++
+			}
+		}
+		h.count("async_resolve_won", asyncWon)
+		h.count("forced_resolve_won", forcedWon)
+		// (the two callers of a batch may have been served by two executions - the second registering after the first
+		// started - in which case each execution has its own race and only the per-caller checks apply)
+	})
 }
